@@ -917,3 +917,13 @@ Proof.
   exists (0 :: 5 :: repeat 7 18). split; [split; [unfold wf_bytes; repeat constructor|reflexivity]|].
   vm_compute. auto.
 Qed.
+
+(* once the switch is flipped the full statement holds for the model of the running code:
+   instantiate with [eq_refl] *)
+Lemma internal_in_zone_when_fixed : fix_applied = true -> forall b l a,
+  (bytes_to_address b l = Internal a -> a = to20 b /\ in_zone a l = true)
+  /\ (bytes_to_address b l = External a -> a = to20 b /\ in_zone a l = false).
+Proof.
+  unfold bytes_to_address. intros Hf b l a. rewrite Hf.
+  split; [apply internal_in_zone_fixed|apply external_out_of_zone_fixed].
+Qed.
